@@ -47,6 +47,15 @@ CLAIMED = {
                 "overflows is irrelevant to the rule. " + TRUST,
         "technique": "who-may-construct inventory + reaching-definition provenance + CFG dominance of finite guards",
     },
+    "C09": {
+        "level": "Exhaustive static decision of operator nesting: for every (parent, sub-kind, position, child, child sub-kind, "
+                 "export flag) cell (1161) the grammar's admissible set (derived from Parser::parse_* MIR by reaching "
+                 "definitions) is compared with the printer's wrap decision (derived by path interpretation of stringify, "
+                 "reconstructing nested format templates); plus operator/error literal tables of printer and lexer/parsers.",
+        "note": "Number and string literal round trip (to_excel_precision_str vs consume_number) is numeric and not decided; "
+                "separators are decided under C16/SEP. " + TRUST,
+        "technique": "reaching-definitions over the recursive-descent parser + finite-domain path interpretation of the printer",
+    },
     "C10": {
         "level": "Static decision of the storage discipline behind language/locale independence: typestate dataflow of the "
                  "parser configuration at every parse of stored text, English-only printers into stored fields, and the write "
